@@ -70,6 +70,26 @@ Meet(p, q) == Leq(p[1], q[2]) /\ Leq(q[1], p[2])
 Inside(L, p) == Leq(p[1], L) /\ Leq(L, p[2])
 \* the wall time lies in the wall-clock image of a transition whose image overlaps that of another transition
 Ov(L) == \E i, j \in 1..Len(trans) : i # j /\ Meet(Img(i), Img(j)) /\ (Inside(L, Img(i)) \/ Inside(L, Img(j)))
+\* the same between the last table transition and the transitions of the footer rule (chrono evaluates the rule for a wall
+\* time without looking at the table): everything relative to L, in seconds, so that the arithmetic stays native
+OvRule(L) ==
+   /\ rule.k = "alt" /\ trans # <<>>
+   /\ LET d == Sub(LastT, L) IN Small(d) /\ ToInt(d) > -40000000 /\ ToInt(d) < 40000000
+   /\ LET dT == ToInt(Sub(LastT, L))
+          n == Len(trans)
+          a == TypeBefore(Z, n).off  b == TypeAfter(Z, n).off
+          tabImg == <<dT + (IF a < b THEN a ELSE b), dT + (IF a < b THEN b ELSE a)>>
+          Lp == PairOfBig(L)
+          y == YearOfDay(Lp[1])
+          rel(p) == (p[1] - Lp[1]) * SPD + (p[2] - Lp[2])
+          so == rule.std.off  do == rule.dst.off
+          lo == IF so < do THEN so ELSE do  hi == IF so < do THEN do ELSE so
+          ruleImgs == { <<rel(StartUtc(rule, yy)) + lo, rel(StartUtc(rule, yy)) + hi>> : yy \in (y - 1)..(y + 1) }
+                      \cup { <<rel(EndUtc(rule, yy)) + lo, rel(EndUtc(rule, yy)) + hi>> : yy \in (y - 1)..(y + 1) }
+          meet(p, q) == p[1] <= q[2] /\ q[1] <= p[2]
+          has0(p) == p[1] <= 0 /\ 0 <= p[2] IN
+      \/ \E r \in ruleImgs : meet(r, tabImg) /\ (has0(r) \/ has0(tabImg))
+      \/ \E r1, r2 \in ruleImgs : r1 # r2 /\ meet(r1, r2) /\ (has0(r1) \/ has0(r2))
 Instants == { I64Min, Zero, I64Max, MinUtc, MaxUtc, T(1700000000) }
             \cup UNION { { Add(trans[k].t, T(d)) : d \in {-1, 0, 1} } : k \in 1..Len(trans) }
 Walls == { Zero, T(1700000000), MinUtc, MaxUtc }
@@ -87,7 +107,7 @@ LocalQuery(L) == LET cand == CandOf(Z, L)  out == OutcomeOf(ValidOffsets(Z, L, c
     \* judged unless: the open boundary second; three or more candidates; a rule outside C05's quantifier
     judge |-> /\ ~OpenBoundary(Z, L, cand) /\ Cardinality(ValidOffsets(Z, L, cand)) <= 2
               /\ ((rule.k = "alt" /\ \E j \in 1..Len(cand) : RuleGoverns(Z, cand[j].i)) => RuleInScope(rule, YearOfDay(PairOfBig(L)[1]))),
-    ov |-> Ov(L)]
+    ov |-> Ov(L) \/ OvRule(L)]
 InI64(x) == FitsI64(x)
 Queries == SetToSeq({ AtQuery(u) : u \in { v \in Instants : InI64(v) } })
            \o SetToSeq({ LocalQuery(L) : L \in { w \in Walls : Representable(w) } })
